@@ -47,12 +47,18 @@ pub enum Ev {
     /// the node's next bulk put with more than k documents is applied to k of them and fails
     #[serde(rename = "partial_bulk")]
     PartialBulk { t: u64, node: u8, k: u32 },
+    /// from now on the views handed to `node` also name these (ghost id, node whose address it has)
+    /// pairs: a peer known under a second node id on the same address - the previous identity of a
+    /// process that was restarted under a new id and has not been declared dead yet. An empty
+    /// list takes them out again (the old identity is reported as left, with that address).
+    #[serde(rename = "ghosts")]
+    Ghosts { t: u64, node: u8, ghosts: Vec<(u8, u8)> },
 }
 
 impl Ev {
     pub fn t(&self) -> u64 {
         match self {
-            Ev::Op { t, .. } | Ev::Hold { t, .. } | Ev::Release { t, .. } | Ev::Crash { t, .. } | Ev::Restart { t, .. } | Ev::View { t, .. } | Ev::Replay { t, .. } | Ev::ClockJump { t, .. } | Ev::Move { t, .. } | Ev::PartialBulk { t, .. } => *t,
+            Ev::Op { t, .. } | Ev::Hold { t, .. } | Ev::Release { t, .. } | Ev::Crash { t, .. } | Ev::Restart { t, .. } | Ev::View { t, .. } | Ev::Replay { t, .. } | Ev::ClockJump { t, .. } | Ev::Move { t, .. } | Ev::PartialBulk { t, .. } | Ev::Ghosts { t, .. } => *t,
         }
     }
 }
@@ -189,6 +195,7 @@ fn validate(sc: &Scenario) -> Result<(), String> {
             Ev::Crash { node, .. } | Ev::Restart { node, .. } | Ev::ClockJump { node, .. } | Ev::Move { node, .. } | Ev::PartialBulk { node, .. } => ids.contains(node),
             Ev::View { node, members, .. } => ids.contains(node) && members.iter().all(|m| ids.contains(m)),
             Ev::Replay { from, .. } => ids.contains(from),
+            Ev::Ghosts { node, ghosts, .. } => ids.contains(node) && ghosts.iter().all(|(g, at)| !ids.contains(g) && ids.contains(at) && at != node),
         };
         if !ok {
             return Err("event refers to an unknown node".into());
@@ -309,6 +316,14 @@ pub fn run_cluster(sc: &Scenario, prop: &str) -> Result<RunResult, String> {
                 }
                 out.fault("bulk_write_armed_to_fail_partway");
             },
+            Ev::Ghosts { node, ghosts, .. } => {
+                cl.shared.borrow_mut().ghosts.insert(*node, ghosts.clone());
+                let cur: BTreeSet<u8> = cl.shared.borrow().views.get(node).cloned().unwrap_or_else(|| full.clone());
+                cl.set_view(*node, &cur);
+                if !ghosts.is_empty() {
+                    out.fault("peer_known_under_a_second_node_id");
+                }
+            },
             Ev::ClockJump { node, delta_ms, .. } => {
                 *cl.clock_jumps.borrow_mut().entry(*node).or_insert(0) += delta_ms;
                 out.fault(if *delta_ms < 0 { "clock_jump_backwards" } else { "clock_jump_forwards" });
@@ -365,6 +380,8 @@ pub fn run_cluster(sc: &Scenario, prop: &str) -> Result<RunResult, String> {
         step(&mut cl, t + 100)?;
     }
     if !real {
+        // a second identity of a peer has been declared dead by now
+        cl.shared.borrow_mut().ghosts.clear();
         for n in &ids {
             cl.set_view(*n, &full);
         }
@@ -737,6 +754,11 @@ pub struct GenKnobs {
     pub max_ops: usize,
     pub span_ms: u64,
     pub level_bias_none: f64,
+    /// probability that a case names a peer under a second node id for a while (see `Ev::Ghosts`);
+    /// zero for C06, whose oracle counts distinct holders per member of the view
+    pub ghosts: f64,
+    /// probability that a case contains one bulk call of more than a thousand documents
+    pub big_bulk: f64,
 }
 
 pub fn gen_cluster_scenario(rng: &mut rand::rngs::SmallRng, k: &GenKnobs) -> Scenario {
@@ -906,6 +928,34 @@ pub fn gen_cluster_scenario(rng: &mut rand::rngs::SmallRng, k: &GenKnobs) -> Sce
     if f_jump {
         for _ in 0..rng.gen_range(1..=2) {
             events.push(Ev::ClockJump { t: rng.gen_range(0..span), node: *ids.choose(rng).unwrap(), delta_ms: rng.gen_range(-300_000..300_000) });
+        }
+    }
+    // one bulk call of more than a thousand documents (ids of their own), sometimes deleted again
+    // in one call later on
+    if rng.gen_bool(k.big_bulk) {
+        let count = *[1_025u64, 1_100, 2_047, 2_049, 2_500, 3_000].choose(rng).unwrap() + if rng.gen_bool(0.3) { rng.gen_range(0..200) } else { 0 };
+        let idv: Vec<u64> = (10_000..10_000 + count).collect();
+        let ks = kss.choose(rng).unwrap().clone();
+        let t = rng.gen_range(0..span);
+        let level = levels[rng.gen_range(0..levels.len())];
+        events.push(Ev::Op { t, node: *ids.choose(rng).unwrap(), spec: OpSpec { kind: "put_many".to_string(), ks: ks.clone(), ids: idv.clone(), level: level.to_string(), dup: false, empty: false } });
+        if rng.gen_bool(0.4) {
+            let level = levels[rng.gen_range(0..levels.len())];
+            let keep = rng.gen_range(0..idv.len() / 3);
+            events.push(Ev::Op { t: t + rng.gen_range(1_100..4_000), node: *ids.choose(rng).unwrap(), spec: OpSpec { kind: "del_many".to_string(), ks, ids: idv[keep..].to_vec(), level: level.to_string(), dup: false, empty: false } });
+        }
+    }
+    // a peer is known under a second node id on the same address for a while (a process restarted
+    // under a new id before its old identity was declared dead); the old identity then leaves
+    if n >= 2 && rng.gen_bool(k.ghosts) {
+        for _ in 0..rng.gen_range(1..=2) {
+            let node = *ids.choose(rng).unwrap();
+            let others: Vec<u8> = ids.iter().copied().filter(|x| *x != node).collect();
+            let at = *others.choose(rng).unwrap();
+            let g = 200 + at;
+            let t = rng.gen_range(0..span);
+            events.push(Ev::Ghosts { t, node, ghosts: vec![(g, at)] });
+            events.push(Ev::Ghosts { t: t + rng.gen_range(50..5_000), node, ghosts: vec![] });
         }
     }
     events.sort_by_key(|e| e.t());
@@ -1304,7 +1354,7 @@ impl Check for C01 {
             5 => return serde_json::to_value(gen_real_scenario(&mut rng)).unwrap(),
             _ => {},
         }
-        let k = GenKnobs { max_nodes: 5, max_ops: 40, span_ms: 25_000, level_bias_none: 0.4 };
+        let k = GenKnobs { max_nodes: 5, max_ops: 40, span_ms: 25_000, level_bias_none: 0.4, ghosts: 0.2, big_bulk: 0.05 };
         serde_json::to_value(gen_cluster_scenario(&mut rng, &k)).unwrap()
     }
     fn isolate(&self, scenario: &Value) -> bool {
